@@ -32,10 +32,11 @@ def kids : Tree → List Tree
   | .node _ cs => cs
   | .leaf _ _ _ => []
 
-/-- `chr(int(data, base))`: ValueError for an empty digit string or a value above U+10FFFF -/
+/-- `chr(int(data, base))`: ValueError for an empty digit string or a value above U+10FFFF (OverflowError when the value
+does not fit a C int) -/
 def decodeChr (base : Nat) (ds : List Nat) : Except String Nat :=
   match decodeNum base ds with
-  | some v => if v ≤ 0x10FFFF then .ok v else .error "ValueError"
+  | some v => if v ≤ 0x10FFFF then .ok v else if v ≤ 0x7FFFFFFF then .error "ValueError" else .error "OverflowError"
   | none => .error "ValueError"
 
 /-- the leading children named `dn` (their texts concatenated) and the rest -/
